@@ -922,6 +922,7 @@ def run(ctx):
     h9_palettes(ctx)
     h10_release(ctx, cg)
     h11_leaf_domains(ctx, roots)
+    h6_copy(ctx, reach)
     ctx.assume("value-dependent failures inside third-party encoders (yaml.dump, plistlib.dumps, json.dumps on exotic "
                "objects) are not decided")
     ctx.assume("the engine's model of the formatting protocol (_get_formatter port) - validated against the runtime in "
